@@ -311,6 +311,7 @@ type cand struct {
 	class   string
 	once    string // non-empty: once-per-file group key (type identity)
 	onceT   *Type
+	never   bool // the statement demands silence here (recorded so that NEVER verdicts show up in the coverage classes)
 }
 
 func allowed(a *Allow, declPkg *Pkg, usePath, useName string) bool {
@@ -417,6 +418,11 @@ func Evaluate(p *Prog, cfg Cfg, root string) *Expect {
 			groups := map[string][]cand{}
 			var gkeys []string
 			for _, cd := range cands {
+				if cd.never {
+					x := e.get(cd.line, cd.cat)
+					mergeFeature(x, cd)
+					continue
+				}
 				if cd.once != "" {
 					k := cd.cat + "|" + cd.once
 					if _, ok := groups[k]; !ok {
@@ -577,11 +583,41 @@ func kindName(k UseKind) string {
 }
 
 // evalLine: the per-use part of the reference model (before @ignore and first-use resolution).
-func evalLine(c *ctx, l *Line, effT func(*Type) bool, effF func(*Func) bool) []cand {
-	var out []cand
+func evalLine(c *ctx, l *Line, effT func(*Type) bool, effF func(*Func) bool) (out []cand) {
 	if c.excluded {
 		return nil
 	}
+	defer func() {
+		// coverage class: use class @ context kind / same or imported package / file kind
+		kind := "func"
+		switch {
+		case c.top == nil:
+			kind = "none"
+		case c.top.PkgLevel:
+			kind = "pkglevel"
+		case c.top.Fn == nil:
+			kind = "decl"
+		case c.top.Fn.TestOnly:
+			kind = "testonly-func"
+		case c.top.Fn.Recv != nil:
+			kind = "method"
+		}
+		fk := "regular"
+		if c.file.ExtTest {
+			fk = "ext-test"
+		} else if c.file.IsTest() {
+			fk = "test"
+		}
+		for i := range out {
+			where := "imported"
+			for _, u := range out[i].line.Uses {
+				if u.T != nil && u.T.Pkg != nil && u.T.Pkg.Path == c.file.Pkg.Path || u.Fn != nil && u.Fn.Pkg != nil && u.Fn.Pkg.Path == c.file.Pkg.Path {
+					where = "same-pkg"
+				}
+			}
+			out[i].class += "@" + kind + "/" + where + "/" + fk
+		}
+	}()
 	f := c.file
 	usePath, useName := f.EffPkgPath(), f.EffPkgName()
 	topName, topIsMethod := c.topFuncName()
@@ -616,9 +652,11 @@ func evalLine(c *ctx, l *Line, effT func(*Type) bool, effF func(*Func) bool) []c
 				continue
 			}
 			if !effT(t) || !t.Immutable {
+				out = append(out, cand{line: l, cat: IMM, never: true, feature: feat, class: cls + "/type-not-immutable"})
 				continue // NEVER
 			}
 			if u.Field != "" && t.Mutable[u.Field] {
+				out = append(out, cand{line: l, cat: IMM, never: true, feature: feat, class: cls + "/mutable-field"})
 				continue // NEVER: @mutable
 			}
 			if hasStr(t.Ctors, topName) && topName != "" {
@@ -627,13 +665,14 @@ func evalLine(c *ctx, l *Line, effT func(*Type) bool, effF func(*Func) bool) []c
 					continue
 				}
 				if usePath == t.Pkg.Path {
+					out = append(out, cand{line: l, cat: IMM, never: true, feature: feat, class: cls + "/in-listed-constructor"})
 					continue // NEVER: inside a listed constructor of the type's own package
 				}
 				// a function of another package that merely has the name: MUST
 			}
 			out = append(out, cand{line: l, cat: IMM, code: immCode[u.Kind], feature: feat, class: cls})
 		case URead:
-			// NEVER
+			out = append(out, cand{line: l, cat: IMM, never: true, feature: feat, class: "IMM/read"})
 		case ULit, UNew, UVarZero:
 			t := u.T
 			cls := "CTOR/" + kindName(u.Kind)
@@ -642,6 +681,7 @@ func evalLine(c *ctx, l *Line, effT func(*Type) bool, effF func(*Func) bool) []c
 				continue
 			}
 			if !effT(t) || t.Ctors == nil {
+				out = append(out, cand{line: l, cat: CTOR, never: true, feature: feat, class: cls + "/type-without-constructor-annotation"})
 				continue
 			}
 			if hasStr(t.Ctors, topName) && topName != "" {
@@ -650,13 +690,16 @@ func evalLine(c *ctx, l *Line, effT func(*Type) bool, effF func(*Func) bool) []c
 					continue
 				}
 				if usePath == t.Pkg.Path {
+					out = append(out, cand{line: l, cat: CTOR, never: true, feature: feat, class: cls + "/in-listed-constructor"})
 					continue
 				}
 			}
 			code := map[UseKind]string{ULit: "CTOR01", UNew: "CTOR02", UVarZero: "CTOR03"}[u.Kind]
 			out = append(out, cand{line: l, cat: CTOR, code: code, feature: feat, class: cls})
 		case UVarInert:
-			// NEVER for CTOR
+			if effT(u.T) && u.T.Ctors != nil {
+				out = append(out, cand{line: l, cat: CTOR, never: true, feature: feat, class: "CTOR/var-inert"})
+			}
 		case UTypeRef:
 			t := u.T
 			// TONL01
@@ -675,6 +718,18 @@ func evalLine(c *ctx, l *Line, effT func(*Type) bool, effF func(*Func) bool) []c
 					}
 				}
 			}
+			if effT(t) && t.TestOnly && f.IsTest() {
+				out = append(out, cand{line: l, cat: TONL, never: true, feature: feat, class: "TONL/type-" + u.Sub + "/in-test-file"})
+			} else if effT(t) && t.TestOnly && inTestOnlyBody && !isSignatureLine(c, l) {
+				out = append(out, cand{line: l, cat: TONL, never: true, feature: feat, class: "TONL/type-" + u.Sub + "/in-testonly-body"})
+			}
+			if effT(t) && t.PkgOnly != nil && (usePath == t.Pkg.Path || allowed(t.PkgOnly, t.Pkg, usePath, useName)) && !u.Alias {
+				why := "/allowed-package"
+				if usePath == t.Pkg.Path {
+					why = "/declaring-package"
+				}
+				out = append(out, cand{line: l, cat: PKGO, never: true, feature: feat, class: "PKGO/type-" + u.Sub + why})
+			}
 			// PKGO01
 			if effT(t) && t.PkgOnly != nil && usePath != t.Pkg.Path {
 				cls := "PKGO/type-" + u.Sub
@@ -686,6 +741,12 @@ func evalLine(c *ctx, l *Line, effT func(*Type) bool, effF func(*Func) bool) []c
 			}
 		case UFuncRef:
 			fn := u.Fn
+			if effF(fn) && fn.TestOnly && (f.IsTest() || inTestOnlyBody) {
+				out = append(out, cand{line: l, cat: TONL, never: true, feature: feat, class: "TONL/func-ref/exempt-context"})
+			}
+			if effF(fn) && fn.PkgOnly != nil && (usePath == fn.Pkg.Path || allowed(fn.PkgOnly, fn.Pkg, usePath, useName)) {
+				out = append(out, cand{line: l, cat: PKGO, never: true, feature: feat, class: "PKGO/func-ref/allowed"})
+			}
 			if effF(fn) && fn.TestOnly && !f.IsTest() && !inTestOnlyBody {
 				if u.Call {
 					out = append(out, cand{line: l, cat: TONL, code: "TONL02", free: free(TONL), feature: feat, class: "TONL/func-call"})
@@ -702,6 +763,12 @@ func evalLine(c *ctx, l *Line, effT func(*Type) bool, effF func(*Func) bool) []c
 			}
 		case UMethodRef:
 			fn := u.Fn
+			if effF(fn) && fn.TestOnly && (f.IsTest() || inTestOnlyBody) {
+				out = append(out, cand{line: l, cat: TONL, never: true, feature: feat, class: "TONL/method-ref/exempt-context"})
+			}
+			if effF(fn) && fn.PkgOnly != nil && (usePath == fn.Pkg.Path || allowed(fn.PkgOnly, fn.Pkg, usePath, useName)) {
+				out = append(out, cand{line: l, cat: PKGO, never: true, feature: feat, class: "PKGO/method-ref/allowed"})
+			}
 			if effF(fn) && fn.TestOnly && !f.IsTest() && !inTestOnlyBody {
 				if u.Call {
 					out = append(out, cand{line: l, cat: TONL, code: "TONL03", free: free(TONL), feature: feat, class: "TONL/method-call"})
